@@ -671,3 +671,8 @@ Definition other_ids_okb (d : xdoc) : bool :=
 Definition reader_okb (parse_flt : string -> option flt) (s : schema) (d : xdoc) : bool :=
   doc_ok_xmi parse_flt s d && schema_okb s && sofa_feat_okb s && names_okb d
   && forallb (elem_okb s) (filter is_other d) && sofas_okb d && members_okb s d && other_ids_okb d.
+(* the same without the requirement that the document has an _InitialView sofa: view names distinct only *)
+Definition sofas_nodupb (d : xdoc) : bool := nodup_sb (map sofa_name (filter is_sofa d)).
+Definition reader_okb0 (parse_flt : string -> option flt) (s : schema) (d : xdoc) : bool :=
+  doc_ok_xmi parse_flt s d && schema_okb s && sofa_feat_okb s && names_okb d
+  && forallb (elem_okb s) (filter is_other d) && sofas_nodupb d && members_okb s d && other_ids_okb d.
